@@ -72,10 +72,7 @@ func checkC03(e *Env) {
 	forAllIterations(e, "FORALL", rd, "call:bundle.loadMetadata(*)#0.requests", noCfg,
 		gate.CallOK("D.each", "bundle.loadResponse", "call:bundle.loadMetadata(*)#0.requests[rangeidx]", "call:i*.ReadAll(param:r)#0"))
 	forAllIterations(e, "FORALL", rd, "call:bundle.loadMetadata(*)#0.requests", noCfg,
-		gate.Gate{Key: "D.keep", Desc: "the loaded exchange is appended", Instr: func(in ssa.Instruction) bool {
-			c, ok := in.(*ssa.Call)
-			return ok && prov.CalleeName(&c.Call) == "builtin:append" && strings.Contains(prov.Of(c.Call.Args[1]), "bundle.Exchange")
-		}})
+		gate.Gate{Key: "D.keep", Desc: "the loaded exchange is appended", Instr: collects("bundle.Exchange")})
 	e.requireStore("RESULT", rd, "alloc:bundle.Exchange.Request", "call:bundle.loadMetadata(*)#0.requests[rangeidx].Request", "the request (URL) of the index entry whose location was loaded")
 	e.requireStore("RESULT", rd, "alloc:bundle.Exchange.Response", "call:bundle.loadResponse(call:bundle.loadMetadata(*)#0.requests[rangeidx],*)#0", "the response loaded from that entry's location")
 
@@ -161,77 +158,121 @@ func checkC03(e *Env) {
 	e.R.Floor("GATE", 5)
 }
 
-// responsesLast: in WriteTo the last append to the section list, on every path
-// to the writes, is the responses section.
+// responsesLast: the section list WriteTo writes (the list handed to
+// writeSectionOffsets) ends with the responses section: followed back through
+// merges, through append (whose last element decides) and through the result
+// of a helper the rule tables do not know.
 func responsesLast(e *Env, wt *ssa.Function) {
 	if wt == nil {
 		return
 	}
 	key := "bundle.(*Bundle).WriteTo:responses-last"
-	var appends []*ssa.Call
+	var list ssa.Value
+	var at ssa.Instruction
 	for _, b := range wt.Blocks {
 		for _, in := range b.Instrs {
-			if c, ok := in.(*ssa.Call); ok && prov.CalleeName(&c.Call) == "builtin:append" && strings.HasSuffix(c.Type().String(), "bundle.section") {
-				appends = append(appends, c)
+			if c, isCall := in.(*ssa.Call); isCall && prov.CalleeName(&c.Call) == "bundle.writeSectionOffsets" && len(c.Call.Args) > 1 {
+				list, at = c.Call.Args[1], in
 			}
 		}
 	}
-	if len(appends) == 0 {
-		e.R.Undecided("ORDER", key, e.P.Pos(wt.Pos()), "no append to the section list found")
+	if list == nil {
+		e.R.Undecided("ORDER", key, e.P.Pos(wt.Pos()), "no call of writeSectionOffsets found: cannot identify the section list that is written")
 		return
 	}
-	reaches := func(a, b *ssa.Call) bool {
-		if a.Block() == b.Block() {
-			return before(a, b)
-		}
-		seen := map[*ssa.BasicBlock]bool{}
-		stack := append([]*ssa.BasicBlock{}, a.Block().Succs...)
-		for len(stack) > 0 {
-			x := stack[len(stack)-1]
-			stack = stack[:len(stack)-1]
-			if x == b.Block() {
-				return true
-			}
-			if seen[x] {
-				continue
-			}
-			seen[x] = true
-			stack = append(stack, x.Succs...)
-		}
-		return false
-	}
-	var last *ssa.Call
-	for _, a := range appends {
-		isLast := true
-		for _, o := range appends {
-			if o != a && reaches(a, o) {
-				isLast = false
-			}
-		}
-		if isLast {
-			if last != nil {
-				last = nil // two candidates: not a unique last append
-				break
-			}
-			last = a
-		}
-	}
-	if last != nil && strings.Contains(strings.Join(sliceElems(last.Call.Args[1]), " "), "call:bundle.newResponsesSection(") {
-		// and the value written is that final slice
-		ok := false
-		for _, b := range wt.Blocks {
-			for _, in := range b.Instrs {
-				if c, isCall := in.(*ssa.Call); isCall && prov.CalleeName(&c.Call) == "bundle.writeSectionOffsets" && c.Call.Args[1] == ssa.Value(last) {
-					ok = true
-				}
-			}
-		}
-		if ok {
-			e.R.OK("ORDER", key, e.P.InstrPos(last), "every other append to the section list precedes the append of the responses section, and that final list is what is written")
-			return
-		}
+	if endsWithResponses(e, list, 0, map[ssa.Value]bool{}) {
+		e.R.OK("ORDER", key, e.P.InstrPos(at), "the list that is written is, on every path, the result of an append whose last element is the responses section")
+		return
 	}
 	e.R.Fail("ORDER", key, e.P.Pos(wt.Pos()), "the responses section is not appended last to the list that is written")
+}
+
+// elemsInOrder: the elements of a variadic/literal backing array, by index.
+func elemsInOrder(v ssa.Value) []ssa.Value {
+	sl, ok := v.(*ssa.Slice)
+	if !ok {
+		return nil
+	}
+	al, ok := sl.X.(*ssa.Alloc)
+	if !ok || al.Referrers() == nil {
+		return nil
+	}
+	byIdx := map[int64]ssa.Value{}
+	for _, ref := range *al.Referrers() {
+		ia, ok := ref.(*ssa.IndexAddr)
+		if !ok || ia.Referrers() == nil {
+			continue
+		}
+		k, ok := ia.Index.(*ssa.Const)
+		if !ok {
+			return nil
+		}
+		for _, r2 := range *ia.Referrers() {
+			if st, ok := r2.(*ssa.Store); ok && st.Addr == ia {
+				byIdx[k.Int64()] = st.Val
+			}
+		}
+	}
+	var out []ssa.Value
+	for i := int64(0); i < int64(len(byIdx)); i++ {
+		x, ok := byIdx[i]
+		if !ok {
+			return nil
+		}
+		out = append(out, x)
+	}
+	return out
+}
+
+func endsWithResponses(e *Env, v ssa.Value, depth int, seen map[ssa.Value]bool) bool {
+	if depth > 6 || seen[v] {
+		return false
+	}
+	seen[v] = true
+	switch x := v.(type) {
+	case *ssa.Phi:
+		for _, ed := range x.Edges {
+			if !endsWithResponses(e, ed, depth+1, seen) {
+				return false
+			}
+		}
+		return len(x.Edges) > 0
+	case *ssa.Call:
+		if prov.CalleeName(&x.Call) == "builtin:append" && len(x.Call.Args) == 2 {
+			el := elemsInOrder(x.Call.Args[1])
+			return len(el) > 0 && strings.Contains(prov.Of(el[len(el)-1]), "call:bundle.newResponsesSection(")
+		}
+	case *ssa.Extract:
+		c, ok := x.Tuple.(*ssa.Call)
+		if !ok || x.Index != 0 {
+			return false
+		}
+		h := c.Call.StaticCallee()
+		if h == nil || h.Blocks == nil || !e.P.InModule(h) || prov.KnownFunction(h) || len(c.Call.Args) != len(h.Params) {
+			return false
+		}
+		prov.PushSubst(h, &c.Call)
+		defer prov.PopSubst()
+		n := 0
+		for _, b := range h.Blocks {
+			r, ok := b.Instrs[len(b.Instrs)-1].(*ssa.Return)
+			if !ok || len(r.Results) == 0 {
+				continue
+			}
+			// a return of the nil list belongs to a failing path
+			if k, ok := r.Results[0].(*ssa.Const); ok && k.IsNil() && len(r.Results) == 2 {
+				if ek, isConst := r.Results[1].(*ssa.Const); !isConst || !ek.IsNil() {
+					continue
+				}
+			}
+			n++
+			if !endsWithResponses(e, r.Results[0], depth+1, seen) {
+				return false
+			}
+		}
+		return n > 0
+	}
+	return false
 }
 
 // locationBookkeeping: rule (c) in addResponse.
